@@ -406,14 +406,13 @@ func (x *Unit) lockOp(st *State, pc *preparedCall, name string, lock bool) {
 }
 
 func (x *Unit) onceDo(st *State, pc *preparedCall) []Val {
-	g := x.ghostGet(st, "onceDone")
-	addr := pc.recv.T
-	done := Select(x.u.MapVal(g.T), addr)
+	cell := &LV{kind: lvHeap, key: "atomic:sync_Once", ref: pc.recv.T, srt: SBool, typ: boolT}
+	done := x.readLV(st, cell).T
 	run := st.clone()
 	skip := st.clone()
 	x.assume(run, Not(done))
 	x.assume(skip, done)
-	x.writeLV(run, &LV{kind: lvMap, parent: &LV{kind: lvGlobal, key: "onceDone", typ: g.Typ}, idx: addr, typ: boolT}, Val{True, boolT})
+	x.writeLV(run, cell, Val{True, boolT})
 	fpc := &preparedCall{call: &ast.CallExpr{Fun: pc.call.Args[0], Lparen: pc.call.Lparen}, funVal: &pc.args[0]}
 	if lit, ok := ast.Unparen(pc.call.Args[0]).(*ast.FuncLit); ok {
 		fpc.lit = lit
